@@ -43,6 +43,8 @@ def gen_table(rnd, nrows, ncols):
                 vals.append(MISSING)
             elif integer:
                 vals.append(rnd.randint(-6, 9))
+            elif rnd.random() < 0.06:
+                vals.append(rnd.choice([-9998.9375, -9999.0625]))      # a real value a hair away from the missing-value marker (exactly representable)
             else:
                 vals.append(rnd.randint(-24, 36) / 4.0)
         if len(set(v for v in vals if v != MISSING)) < 2:
